@@ -145,3 +145,51 @@ func VerifC18Callgrind() {
 	vAssert(bad == "", "C18.callgrind.grammar."+strconv.Itoa(where)+": output breaks the name-compression grammar with a metacharacter in the "+sites[where])
 	vObserve(len(lines))
 }
+
+func init() { vRegister("VerifC08ReportDot", VerifC08ReportDot) }
+
+// VerifC08ReportDot (property C08): the DOT report of a profile whose samples
+// carry several string and numeric tags (with and without a bytes tag) is
+// byte-identical under three iteration orders of every Go map involved.
+func VerifC08ReportDot() {
+	m := &profile.Mapping{ID: 1, Start: 0x1000, Limit: 0x9000, File: "bin", HasFunctions: true}
+	var fs []*profile.Function
+	var ls []*profile.Location
+	for i, n := range []string{"main", "a", "b"} {
+		f := &profile.Function{ID: uint64(i + 1), Name: n, SystemName: n, Filename: n + ".go"}
+		fs = append(fs, f)
+		ls = append(ls, &profile.Location{ID: uint64(i + 1), Mapping: m, Address: uint64(0x1000 + 16*i), Line: []profile.Line{{Function: f, Line: int64(i + 1)}}})
+	}
+	build := func() *profile.Profile {
+		return &profile.Profile{
+			SampleType: []*profile.ValueType{{Type: "samples", Unit: "count"}}, PeriodType: &profile.ValueType{Type: "cpu", Unit: "ns"}, Period: 1,
+			Mapping: []*profile.Mapping{m}, Function: fs, Location: ls,
+			Sample: []*profile.Sample{
+				{Location: []*profile.Location{ls[1], ls[0]}, Value: []int64{int64(1 + vChoice("w0", 2))},
+					NumLabel: map[string][]int64{"reqs": {2}, "latency": {5}, "depth": {7}}, NumUnit: map[string][]string{"latency": {"ms"}},
+					Label: map[string][]string{"k": {"x"}, "j": {"y"}}},
+				{Location: []*profile.Location{ls[2], ls[0]}, Value: []int64{int64(1 + vChoice("w1", 2))},
+					NumLabel: map[string][]int64{"bytes": {16}, "reqs": {3}}, NumUnit: map[string][]string{"bytes": {"bytes"}}},
+				{Location: []*profile.Location{ls[1], ls[0]}, Value: []int64{1}, NumLabel: map[string][]int64{"reqs": {9}, "depth": {1}}},
+			},
+		}
+	}
+	compose := func(mode string) string {
+		vMapOrder(mode)
+		p := build()
+		units, _ := p.NumLabelUnits()
+		rpt := New(p, &Options{OutputFormat: Dot, SampleType: "samples", SampleUnit: "count", NumLabelUnits: units,
+			SampleValue: func(v []int64) int64 { return v[0] }, Title: "t"})
+		var buf bytes.Buffer
+		if err := printDOT(&buf, rpt); err != nil {
+			return "error"
+		}
+		return buf.String()
+	}
+	first := compose("insertion")
+	second := compose("reverse")
+	third := compose("rotate")
+	vMapOrder("")
+	vReach("C08.reportdot:composed")
+	vAssert(vAnd(vStrEq(first, second), vStrEq(first, third)), "sched:C08.reportdot.order: the DOT report depends on map iteration order")
+}
